@@ -163,6 +163,25 @@ Section IsoProofs.
     - rewrite E3, E4. auto.
   Qed.
 
+  Lemma spec_sim0 m m0 r r0 n n0 ws seen :
+    (forall w, In w ws -> macros_at m w = macros_at m0 w) ->
+    (forall w, In w ws -> remark_at r w = remark_at r0 w) ->
+    (forall w, In w ws -> existsb (hid (emsg_of m0 w)) n = existsb (hid (emsg_of m0 w)) n0) ->
+    spec_outs m r n seen ws = spec_outs m0 r0 n0 seen ws.
+  Proof.
+    intros H1 H2 H3. destruct (spec_sim m m0 r r0 n n0 [] ws seen) as [E _]; auto.
+    rewrite app_nil_r in E. exact E.
+  Qed.
+
+  Lemma spec_cfgs_sim0 r n n0 cs m m0 seen :
+    (forall w, In w (stale_cfg_raws cs) -> macros_at m w = macros_at m0 w) ->
+    (forall e, In e (cfg_queries m0 cs) -> existsb (hid e) n = existsb (hid e) n0) ->
+    spec_cfgs_outs m r n seen cs = spec_cfgs_outs m0 r n0 seen cs.
+  Proof.
+    intros H1 H2. destruct (spec_cfgs_sim r n n0 [] cs m m0 seen) as [E _]; auto.
+    rewrite app_nil_r in E. exact E.
+  Qed.
+
   (* ---------- suppression lists that differ by entries of other files ---------- *)
   (* l holds what l0 holds plus `extra`, as far as any flag-blind test can tell *)
   Definition covers (extra l l0 : list supp) : Prop :=
@@ -246,11 +265,11 @@ Section IsoProofs.
                           (spec_seen (spec_seen seen (a_pre f)) (a_mid f)) (a_cfgs f)
     end.
 
-  Definition next_seen (seen : list str) (f : fileA) : list str :=
+  Definition next_seen (f : fileA) : list str :=
     match a_kind f with
-    | Markup => seen
-    | Early => spec_seen seen (a_pre f)
-    | Cached => spec_seen (spec_seen seen (a_pre f)) (a_mid f)
+    | Markup => []
+    | Early => spec_seen [] (a_pre f)
+    | Cached => spec_seen (spec_seen [] (a_pre f)) (a_mid f)
     | Full => []
     end.
 
@@ -265,8 +284,8 @@ Section IsoProofs.
 
   Lemma check_file_spec S f S' o :
     check_file pm ug S f = Some (S', o) ->
-    o = spec_file (l_nomsg (i_log S)) (l_seen (i_log S)) (i_locm S) (i_rem S) f
-    /\ l_seen (i_log S') = next_seen (l_seen (i_log S)) f
+    o = spec_file (l_nomsg (i_log S)) [] (i_locm S) (i_rem S) f
+    /\ l_seen (i_log S') = next_seen f
     /\ i_locm S' = next_locm (i_locm S) f
     /\ i_rem S' = next_rem (i_rem S) f
     /\ map static (l_nomsg (i_log S')) = map static (next_nomsg (l_nomsg (i_log S)) f).
@@ -303,7 +322,6 @@ Section IsoProofs.
   (* ---------- `clean`: nothing in the state that this file reads ---------- *)
   Inductive clean (n0 : list supp) (S : istate) (f : fileA) : Prop := mkClean
       (cl_extra : list supp)
-      (cl_texts : forall w, In w (raws_of f) -> mem_str (w_text w) (l_seen (i_log S)) = false)
       (cl_locm : forall w, In w (stale_locm_raws f) -> macros_at (i_locm S) w = [])
       (cl_rem : forall w, In w (stale_rem_raws f) -> remark_at (i_rem S) w = [])
       (cl_cov : covers cl_extra (l_nomsg (i_log S)) n0)
@@ -318,56 +336,44 @@ Section IsoProofs.
 
   Lemma spec_file_clean n0 S f :
     clean n0 S f ->
-    spec_file (l_nomsg (i_log S)) (l_seen (i_log S)) (i_locm S) (i_rem S) f = spec_file n0 [] [] [] f.
+    spec_file (l_nomsg (i_log S)) [] (i_locm S) (i_rem S) f = spec_file n0 [] [] [] f.
   Proof.
-    intros [extra Ht Hl Hr C Hh Hs].
-    set (n := l_nomsg (i_log S)) in *. set (X := l_seen (i_log S)) in *.
-    set (m := i_locm S) in *. set (r := i_rem S) in *.
-    unfold spec_file. unfold raws_of, stale_locm_raws, stale_rem_raws, queries_of, inline_of in *.
+    intros [extra Hl Hr C Hh Hs].
+    set (n := l_nomsg (i_log S)) in *. set (m := i_locm S) in *. set (r := i_rem S) in *.
+    unfold spec_file. unfold stale_locm_raws, stale_rem_raws, queries_of, inline_of in *.
     destruct (a_kind f) eqn:Hk; [reflexivity| | |].
     - (* Early *)
-      destruct (spec_sim m [] r [] n n0 X (a_pre f) []) as [E _]; cbn [app] in *; auto.
+      apply spec_sim0.
       + intros w Hw. rewrite macros_nil. auto.
       + intros w Hw. rewrite remark_nil. auto.
       + intros w Hw. apply (covers_hides extra); [exact C|]. intros s Hs'. apply Hh; [exact Hs'|]. apply in_map. exact Hw.
     - (* Cached *)
       assert (C2 : covers extra (add_all n (a_inline f)) (add_all n0 (a_inline f))) by (apply covers_add_both; auto).
-      destruct (spec_sim m [] r [] n n0 X (a_pre f) []) as [E1 E2]; cbn [app] in *.
-      { intros w Hw. rewrite macros_nil. apply Hl. apply in_or_app; auto. }
-      { intros w Hw. rewrite remark_nil. auto. }
-      { intros w Hw. apply (covers_hides extra); [exact C|]. intros s Hs'. apply Hh; [exact Hs'|]. apply in_map. apply in_or_app; auto. }
-      { intros w Hw. apply Ht. apply in_or_app; auto. }
-      rewrite E1, E2.
-      destruct (spec_sim m [] (a_remarks f) (a_remarks f) (add_all n (a_inline f)) (add_all n0 (a_inline f)) X (a_mid f)
-                         (spec_seen [] (a_pre f))) as [E3 _].
-      { intros w Hw. rewrite macros_nil. apply Hl. apply in_or_app; auto. }
-      { reflexivity. }
-      { intros w Hw. apply (covers_hides extra); [exact C2|]. intros s Hs'. apply Hh; [exact Hs'|]. apply in_map. apply in_or_app; auto. }
-      { intros w Hw. apply Ht. apply in_or_app; auto. }
-      rewrite E3. reflexivity.
+      f_equal.
+      + apply spec_sim0.
+        * intros w Hw. rewrite macros_nil. apply Hl. apply in_or_app; auto.
+        * intros w Hw. rewrite remark_nil. auto.
+        * intros w Hw. apply (covers_hides extra); [exact C|]. intros s Hs'. apply Hh; [exact Hs'|]. apply in_map. apply in_or_app; auto.
+      + apply spec_sim0.
+        * intros w Hw. rewrite macros_nil. apply Hl. apply in_or_app; auto.
+        * reflexivity.
+        * intros w Hw. apply (covers_hides extra); [exact C2|]. intros s Hs'. apply Hh; [exact Hs'|]. apply in_map. apply in_or_app; auto.
     - (* Full *)
       assert (C2 : covers extra (add_all n (a_inline f)) (add_all n0 (a_inline f))) by (apply covers_add_both; auto).
-      destruct (spec_sim m [] r [] n n0 X (a_pre f) []) as [E1 E2]; cbn [app] in *.
-      { intros w Hw. rewrite macros_nil. apply Hl. apply in_or_app; auto. }
-      { intros w Hw. rewrite remark_nil. auto. }
-      { intros w Hw. apply (covers_hides extra); [exact C|]. intros s Hs'. apply Hh; [exact Hs'|].
-        apply in_or_app. left. apply in_map. apply in_or_app; auto. }
-      { intros w Hw. apply Ht. apply in_or_app; auto. }
-      rewrite E1, E2.
-      destruct (spec_sim m [] (a_remarks f) (a_remarks f) (add_all n (a_inline f)) (add_all n0 (a_inline f)) X (a_mid f)
-                         (spec_seen [] (a_pre f))) as [E3 E4].
-      { intros w Hw. rewrite macros_nil. apply Hl. apply in_or_app. right. apply in_or_app; auto. }
-      { reflexivity. }
-      { intros w Hw. apply (covers_hides extra); [exact C2|]. intros s Hs'. apply Hh; [exact Hs'|].
-        apply in_or_app. left. apply in_map. apply in_or_app; auto. }
-      { intros w Hw. apply Ht. apply in_or_app. right. apply in_or_app; auto. }
-      rewrite E3, E4.
-      destruct (spec_cfgs_sim (a_remarks f) (add_all n (a_inline f)) (add_all n0 (a_inline f)) X (a_cfgs f) m []
-                              (spec_seen (spec_seen [] (a_pre f)) (a_mid f))) as [E5 _].
-      { intros w Hw. rewrite macros_nil. apply Hl. apply in_or_app. right. apply in_or_app; auto. }
-      { intros e He. apply (covers_hides extra); [exact C2|]. intros s Hs'. apply Hh; [exact Hs'|]. apply in_or_app; auto. }
-      { intros w Hw. apply Ht. apply in_or_app. right. apply in_or_app; auto. }
-      rewrite E5. reflexivity.
+      f_equal; [|f_equal].
+      + apply spec_sim0.
+        * intros w Hw. rewrite macros_nil. apply Hl. apply in_or_app; auto.
+        * intros w Hw. rewrite remark_nil. auto.
+        * intros w Hw. apply (covers_hides extra); [exact C|]. intros s Hs'. apply Hh; [exact Hs'|].
+          apply in_or_app. left. apply in_map. apply in_or_app; auto.
+      + apply spec_sim0.
+        * intros w Hw. rewrite macros_nil. apply Hl. apply in_or_app. right. apply in_or_app; auto.
+        * reflexivity.
+        * intros w Hw. apply (covers_hides extra); [exact C2|]. intros s Hs'. apply Hh; [exact Hs'|].
+          apply in_or_app. left. apply in_map. apply in_or_app; auto.
+      + apply spec_cfgs_sim0.
+        * intros w Hw. rewrite macros_nil. apply Hl. apply in_or_app. right. apply in_or_app; auto.
+        * intros e He. apply (covers_hides extra); [exact C2|]. intros s Hs'. apply Hh; [exact Hs'|]. apply in_or_app; auto.
   Qed.
 
   (* a clean state gives the findings of a fresh object *)
@@ -383,7 +389,6 @@ Section IsoProofs.
 
   (* ---------- independence of a later file f from an earlier file g ---------- *)
   Record indep (g f : fileA) : Prop := mkIndep {
-    in_texts : forall w, In w (raws_of f) -> mem_str (w_text w) (left_texts g) = false;
     in_locm : forall w m, In w (stale_locm_raws f) -> w_stack w = true -> In m (locmaps_of g) ->
                           has_key (w_file w, w_line w) m = false;
     in_rem : forall w, In w (stale_rem_raws f) -> w_stack w = true ->
@@ -396,7 +401,6 @@ Section IsoProofs.
   (* what the state can contain after the files of l1 *)
   Inductive inv (n0 : list supp) (l1 : list fileA) (S : istate) : Prop := mkInv
       (iv_extra : list supp)
-      (iv_seen : forall t, In t (l_seen (i_log S)) -> exists g, In g l1 /\ In t (left_texts g))
       (iv_locm : i_locm S = [] \/ exists g, In g l1 /\ In (i_locm S) (locmaps_of g))
       (iv_rem : i_rem S = [] \/ exists g, In g l1 /\ i_rem S = remarks_of g)
       (iv_cov : covers iv_extra (l_nomsg (i_log S)) n0)
@@ -428,7 +432,7 @@ Section IsoProofs.
   Lemma inv_step n0 l1 S g S' o :
     inv n0 l1 S -> check_file pm ug S g = Some (S', o) -> inv n0 (l1 ++ [g]) S'.
   Proof.
-    intros [extra Hseen Hlocm Hrem C Hfrom] H.
+    intros [extra Hlocm Hrem C Hfrom] H.
     apply check_file_spec in H. destruct H as (_ & Es & El & Er & En).
     assert (Hold : forall x, In x l1 -> In x (l1 ++ [g])) by (intros; apply in_or_app; auto).
     assert (Hg : In g (l1 ++ [g])) by (apply in_or_app; right; left; reflexivity).
@@ -440,16 +444,6 @@ Section IsoProofs.
         exists e'; (split; [apply (covers_static e' _ _ _ En); exact C'|exact Hin]). }
     destruct Cn as (extra' & C' & Hin).
     apply (mkInv n0 (l1 ++ [g]) S' extra').
-    - rewrite Es. unfold next_seen, left_texts, raws_of. intros t Ht.
-      assert (Hkeep : In t (l_seen (i_log S)) -> exists g0, In g0 (l1 ++ [g]) /\ In t (left_texts g0)).
-      { intros H0. destruct (Hseen t H0) as (g0 & G1 & G2). exists g0. auto. }
-      destruct (a_kind g) eqn:Hk; [auto| | |destruct Ht].
-      + apply spec_seen_in in Ht. destruct Ht as [Ht|Ht]; [auto|].
-        exists g. split; [exact Hg|]. unfold left_texts, raws_of. rewrite Hk. exact Ht.
-      + apply spec_seen_in in Ht. destruct Ht as [Ht|Ht].
-        * apply spec_seen_in in Ht. destruct Ht as [Ht|Ht]; [auto|].
-          exists g. split; [exact Hg|]. unfold left_texts, raws_of. rewrite Hk, map_app. apply in_or_app; auto.
-        * exists g. split; [exact Hg|]. unfold left_texts, raws_of. rewrite Hk, map_app. apply in_or_app; auto.
     - rewrite El. unfold next_locm.
       assert (Hkeep : i_locm S = [] \/ exists g0, In g0 (l1 ++ [g]) /\ In (i_locm S) (locmaps_of g0)).
       { destruct Hlocm as [H0|(g0 & G1 & G2)]; [auto|right; exists g0; auto]. }
@@ -481,13 +475,8 @@ Section IsoProofs.
   Lemma inv_clean n0 l1 S f :
     inv n0 l1 S -> (forall g, In g l1 -> indep g f) -> clean n0 S f.
   Proof.
-    intros [extra Hseen Hlocm Hrem C Hfrom] Hind.
+    intros [extra Hlocm Hrem C Hfrom] Hind.
     apply (mkClean n0 S f extra).
-    - intros w Hw. unfold mem_str. apply existsb_false_all. intros t Ht.
-      destruct (Hseen t Ht) as (g & G1 & G2).
-      pose proof (in_texts g f (Hind g G1) w Hw) as H0. unfold mem_str in H0.
-      destruct (str_eqb (w_text w) t) eqn:E; [|reflexivity].
-      rewrite <- H0. symmetry. apply existsb_exists. exists t. auto.
     - intros w Hw. unfold macros_at. destruct (w_stack w) eqn:Hst; [|reflexivity].
       destruct Hlocm as [->|(g & G1 & G2)]; [reflexivity|].
       rewrite (lookup_no_key _ _ (in_locm g f (Hind g G1) w _ Hw Hst G2)). reflexivity.
@@ -549,10 +538,15 @@ Section IsoProofs.
     eapply clean_before_every_file; eassumption.
   Qed.
 
-  (* R4: after a file that reaches mLogger->clear() nothing is left in the duplicate list *)
-  Theorem clear_resets_duplicates S f S' o :
-    check_file pm ug S f = Some (S', o) -> a_kind f = Full -> l_seen (i_log S') = [].
-  Proof. intros H Hk. apply check_file_spec in H. destruct H as (_ & -> & _). unfold next_seen. rewrite Hk. reflexivity. Qed.
+  (* R1: the duplicate list is emptied at the start of every file, so whatever an earlier
+     file left in it (early exits do not reach R4) has no influence *)
+  Theorem duplicate_list_irrelevant S f X S1 o1 S2 o2 :
+    check_file pm ug S f = Some (S1, o1) ->
+    check_file pm ug (with_seen S X) f = Some (S2, o2) ->
+    o1 = o2.
+  Proof.
+    intros H1 H2. apply check_file_spec in H1, H2. destruct H1 as [-> _]. destruct H2 as [-> _]. reflexivity.
+  Qed.
 
   (* a suppression that names a file can only hide findings of a matching file:
      with disjoint file names the non-macro part of `in_hide` holds by construction *)
